@@ -5,7 +5,7 @@
   * `ext : Nat → Nat` — ghost ledger: references the USER holds per node number.
   * `RefExact m ext` — `m.ref` has exactly the terminal and the stored nodes as keys and
     `ref u = indeg u + ext u (+1 for the terminal)`; `ext` is 0 outside the nodes.
-  * `Reach t (Held ext) u` — `u` is reachable through stored edges from a node with `ext > 0`.
+  * `GcReach t (GcHeld ext) u` — `u` is reachable through stored edges from a node with `ext > 0`.
   * `GcRun m W mf` — the collection loop popping ANY element of the worklist (a Python `set`);
     `GcSteps` — any prefix of such a run; `gcFinish` — the cache reset at the end.
   * `Mgr.Same a b` — equal field by field (maps compared by lookup).
@@ -101,8 +101,8 @@ holds (plus the terminal), each unchanged and denoting what it denoted; every re
 is positive; the computed table is empty; `_min_free` is again the least unused number. -/
 theorem C06_gc_exact (m : Mgr) (ext : Nat → Nat) (hi : Inv m) (hr : RefExact m ext) :
     ∃ m', collectGarbage none m = (.ok (), m') ∧ Inv m' ∧ RefExact m' ext ∧
-      (∀ u : Nat, (u = 1 ∨ (m'.tbl.node? u).isSome) ↔ (u = 1 ∨ Reach m.tbl (Held ext) u)) ∧
-      (∀ u n, m'.tbl.node? u = some n ↔ (m.tbl.node? u = some n ∧ Reach m.tbl (Held ext) u)) ∧
+      (∀ u : Nat, (u = 1 ∨ (m'.tbl.node? u).isSome) ↔ (u = 1 ∨ GcReach m.tbl (GcHeld ext) u)) ∧
+      (∀ u n, m'.tbl.node? u = some n ↔ (m.tbl.node? u = some n ∧ GcReach m.tbl (GcHeld ext) u)) ∧
       (∀ (u : Int) a, m'.tbl.Mem u → den m'.tbl u a = den m.tbl u a) ∧
       (∀ (u c : Nat), m'.ref[u]? = some c → 0 < c) ∧
       (∀ key : List Int, m'.cache[key]? = none) ∧
@@ -133,7 +133,7 @@ worklist `W`), every node reachable from a node the user holds is still present,
 with a positive count if held, and denotes what it denoted. -/
 theorem C06_held_never_freed (m : Mgr) (ext : Nat → Nat) (W : List Nat) (m' : Mgr) (W' : List Nat)
     (hi : Inv m) (hr : RefExact m ext) (hz : ∀ w ∈ W, m.ref[w]? = some 0) (hnd : W.Nodup)
-    (hsteps : GcSteps m W m' W') (u : Nat) (hu : Reach m.tbl (Held ext) u) :
+    (hsteps : GcSteps m W m' W') (u : Nat) (hu : GcReach m.tbl (GcHeld ext) u) :
     (u = 1 ∨ (m'.tbl.node? u).isSome) ∧
     (∀ n, m.tbl.node? u = some n → m'.tbl.node? u = some n) ∧
     (0 < ext u → ∃ c, m'.ref[u]? = some (c + 1)) ∧
@@ -160,7 +160,7 @@ theorem C06_held_never_freed_collect (roots : Option (List Int)) (m : Mgr) (ext 
     (hi : Inv m) (hr : RefExact m ext)
     (hroots : ∀ r ∈ gcRoots roots m, (m.ref[r.natAbs]?).isSome) :
     ∃ m', collectGarbage roots m = (.ok (), m') ∧ Inv m' ∧ RefExact m' ext ∧
-      ∀ u, Reach m.tbl (Held ext) u →
+      ∀ u, GcReach m.tbl (GcHeld ext) u →
         (u = 1 ∨ (m'.tbl.node? u).isSome) ∧ ∀ a, den m'.tbl (u : Int) a = den m.tbl (u : Int) a := by
   obtain ⟨m', hrun, hp⟩ := collectGarbage_rooted_spec roots m ext hi hr hroots
   refine ⟨m', hrun, hp.inv, hp.refExact, fun u hu => ?_⟩
@@ -168,11 +168,11 @@ theorem C06_held_never_freed_collect (roots : Option (List Int)) (m : Mgr) (ext 
   exact ⟨hmem, fun a => hp.den_eq (u : Int) (by simpa [Tbl.Mem] using hmem) a⟩
 
 /-- non-vacuity: node 3 is reachable from the held node 4 in the example, the start worklist is `[2]` -/
-example : Reach exM.tbl (Held exExt) 3 ∧ (∀ w ∈ [2], exM.ref[w]? = some 0) := by
+example : GcReach exM.tbl (GcHeld exExt) 3 ∧ (∀ w ∈ [2], exM.ref[w]? = some 0) := by
   constructor
-  · have h4 : Reach exM.tbl (Held exExt) 4 := Reach.root (show 0 < exExt 4 by decide)
+  · have h4 : GcReach exM.tbl (GcHeld exExt) 4 := GcReach.root (show 0 < exExt 4 by decide)
     have hn : exM.tbl.node? 4 = some ⟨0, -1, 3⟩ := by decide
-    exact Reach.hi h4 hn
+    exact GcReach.hi h4 hn
   · intro w hw
     simp only [List.mem_cons, List.not_mem_nil, or_false] at hw
     subst hw; decide
